@@ -535,6 +535,11 @@ func findPrefixesCore(node *RegexNode, res *[]*bytes.Buffer, ignoreCase bool) bo
 		// As with One and loops, set loops are handled the same as sets up to the min iteration limit.
 		case NtSet, NtSetloop, NtSetlazy, NtSetloopatomic:
 
+			// GetSetChars returns the excluded characters for a negated set; those are not prefixes.
+			if node.Set.IsNegated() {
+				return false
+			}
+
 			setChars := node.Set.GetSetChars(maxPrefixes)
 
 			if len(setChars) == 0 {
